@@ -252,8 +252,7 @@ def sigma_filter(filename, region, step_size, box_size, shape, domask,
     barrier.wait()
 
     logging.debug("background subtraction")
-    data[0 + ymin - data_row_min: data.shape[0] -
-         (data_row_max - ymax), :] -= ibkg[ymin:ymax, :]
+    data -= ibkg[data_row_min:data_row_max, :]
     logging.debug(".. done ")
 
     # reset/recycle the vals array
